@@ -74,6 +74,9 @@ Record state := State {
   st_unowned : bool;                 (* true = behaviour of the pinned upstream tree: a series for a
                                         channel the writer never opened is relayed; false = /repo
                                         after the fix: it is held back *)
+  st_deadinlet : bool;               (* true = pinned upstream tree: after DB.Close writers keep sending
+                                        into the relay inlet nobody drains; false = /repo after the
+                                        fix: frames written after DB.Close are dropped *)
   st_chans : list (N * ckind);
   st_cap : nat;                      (* relay inlet capacity (BufferSize) *)
   st_writers : list (N * writer);    (* open writers *)
@@ -85,9 +88,9 @@ Record state := State {
 }.
 Global Instance state_eq_dec : EqDecision state. Proof. solve_decision. Defined.
 
-Definition init_gen (unowned : bool) (chans : list (N * ckind)) (cap : nat) : state :=
-  State unowned chans cap [] 0 [] [] false [].
-Definition init := init_gen false.
+Definition init_gen (unowned deadinlet : bool) (chans : list (N * ckind)) (cap : nat) : state :=
+  State unowned deadinlet chans cap [] 0 [] [] false [].
+Definition init := init_gen false false.
 
 (* boolean equality, cheap under vm_compute: [andb]/[existsb] evaluate both arguments under
    call-by-value, so conjunctions are written with [if] (lazy) and the most discriminating
@@ -125,7 +128,7 @@ Definition state_eqb (a b : state) : bool :=
   list_eqb (fun x y => (x.1 =? y.1) &&& streamer_eqb x.2 y.2) (st_strs a) (st_strs b) &&&
   list_eqb frame_eqb (st_fifo a) (st_fifo b) &&& Bool.eqb (st_closed a) (st_closed b) &&&
   list_eqb (fun x y => (x.1 =? y.1) &&& writer_eqb x.2 y.2) (st_writers a) (st_writers b) &&&
-  (st_npos a =? st_npos b) &&& (st_cap a =? st_cap b)%nat &&& Bool.eqb (st_unowned a) (st_unowned b) &&&
+  (st_npos a =? st_npos b) &&& (st_cap a =? st_cap b)%nat &&& Bool.eqb (st_unowned a) (st_unowned b) &&& Bool.eqb (st_deadinlet a) (st_deadinlet b) &&&
   list_eqb (fun x y => (x.1 =? y.1) &&& ckind_eqb x.2 y.2) (st_chans a) (st_chans b) &&&
   list_eqb frame_eqb (st_hist a) (st_hist b).
 Fixpoint inb (st : state) (sts : list state) : bool :=
@@ -163,11 +166,11 @@ Fixpoint nodupN (l : list N) : bool :=
 
 (* ---- record updates *)
 Definition set_writers (st : state) (ws : list (N * writer)) : state :=
-  State (st_unowned st) (st_chans st) (st_cap st) ws (st_npos st) (st_fifo st) (st_strs st) (st_closed st) (st_hist st).
+  State (st_unowned st) (st_deadinlet st) (st_chans st) (st_cap st) ws (st_npos st) (st_fifo st) (st_strs st) (st_closed st) (st_hist st).
 Definition set_strs (st : state) (ss : list (N * streamer)) : state :=
-  State (st_unowned st) (st_chans st) (st_cap st) (st_writers st) (st_npos st) (st_fifo st) ss (st_closed st) (st_hist st).
+  State (st_unowned st) (st_deadinlet st) (st_chans st) (st_cap st) (st_writers st) (st_npos st) (st_fifo st) ss (st_closed st) (st_hist st).
 Definition set_fifo (st : state) (q : list frame) : state :=
-  State (st_unowned st) (st_chans st) (st_cap st) (st_writers st) (st_npos st) q (st_strs st) (st_closed st) (st_hist st).
+  State (st_unowned st) (st_deadinlet st) (st_chans st) (st_cap st) (st_writers st) (st_npos st) q (st_strs st) (st_closed st) (st_hist st).
 Definition upd_str (st : state) (s : N) (f : streamer -> streamer) : state :=
   set_strs st (aupdate s f (st_strs st)).
 
@@ -333,7 +336,7 @@ Definition vstep (st : state) (o : op) : list state :=
   | OpenW w m chans auths =>
       match alookup w (st_writers st), open_writer_ok st w chans auths with
       | None, Some ca =>
-          [State (st_unowned st) (st_chans st) (st_cap st) (st_writers st ++ [(w, Writer true m ca (st_npos st) 0)])
+          [State (st_unowned st) (st_deadinlet st) (st_chans st) (st_cap st) (st_writers st ++ [(w, Writer true m ca (st_npos st) 0)])
                  (st_npos st + 1) (st_fifo st) (st_strs st) (st_closed st) (st_hist st)]
       | _, _ => [st]
       end
@@ -349,13 +352,13 @@ Definition vstep (st : state) (o : op) : list state :=
           let seq := w_seq wr + 1 in
           let st1 := set_writers st (aupdate w (fun wr => Writer (w_open wr) (w_mode wr) (w_chans wr) (w_pos wr) seq)
                                              (st_writers st)) in
-          if streams (w_mode wr) then
+          if streams (w_mode wr) && negb (st_closed st && negb (st_deadinlet st)) then
             (* open DB: [st_cap] frames in the inlet buffer plus the one the relay goroutine
                holds while it sends it to the streamers; closed DB: the buffer only *)
             if (if st_closed st then (length (st_fifo st) <? st_cap st)%nat
                 else (length (st_fifo st) <=? st_cap st)%nat) then
               let f := Frame w seq (relayed_keys st w wr ks) ks (unauth_keys st w wr ks) in
-              [State (st_unowned st1) (st_chans st1) (st_cap st1) (st_writers st1) (st_npos st1) (st_fifo st1 ++ [f])
+              [State (st_unowned st1) (st_deadinlet st1) (st_chans st1) (st_cap st1) (st_writers st1) (st_npos st1) (st_fifo st1 ++ [f])
                      (st_strs st1) (st_closed st1) (st_hist st1 ++ [f])]
             else []      (* the send into the full inlet blocks *)
           else [st1]
@@ -386,7 +389,7 @@ Definition vstep (st : state) (o : op) : list state :=
   | Sync => if st_closed st then [st] else if sync_ready st then [st] else []
   | CloseDB =>
       if st_closed st then [st] else
-      let stc := State (st_unowned st) (st_chans st) (st_cap st) (st_writers st) (st_npos st) (st_fifo st) (st_strs st)
+      let stc := State (st_unowned st) (st_deadinlet st) (st_chans st) (st_cap st) (st_writers st) (st_npos st) (st_fifo st) (st_strs st)
                        true (st_hist st) in
       (if (length (st_fifo st) <=? st_cap st)%nat then [stc] else []) ++
              match st_fifo st with
